@@ -266,6 +266,20 @@ def shrink(lines, still_fails, budget=250):
         runs += 1
         return runs <= budget and still_fails(cand)
 
+    # 0. un-chunk: merge adjacent data events (so that whole PDUs can be dropped later)
+    merged, acc = [], None
+    for l in cur:
+        if l.startswith("ev data "):
+            acc = (acc or "") + l.split()[2]
+        else:
+            if acc is not None:
+                merged.append("ev data " + acc)
+                acc = None
+            merged.append(l)
+    if acc is not None:
+        merged.append("ev data " + acc)
+    if len(merged) < len(cur) and try_(merged):
+        cur = merged
     # 1. cut the tail
     evidx = [i for i, l in enumerate(cur) if l.startswith("ev ")]
     lo, hi = 0, len(evidx)
